@@ -43,7 +43,9 @@ if pat!='*' and os.path.exists('/verif/seeded/MATRIX.json'):
     old=json.load(open('/verif/seeded/MATRIX.json'))
     merged=old.get('changes',{}); merged.update(out); out=merged
     missed=sorted(n for n,v in out.items() if not v.get('caught_by'))
-json.dump({'generated_by':'tools/seeded_matrix.sh','tier':'quick','changes':out,'missed':missed},open('/verif/seeded/MATRIX.json','w'),indent=1)
+notown=sorted(n for n,v in out.items() if v.get('caught_by') and v.get('property') not in v['caught_by'])
+json.dump({'generated_by':'tools/seeded_matrix.sh','tier':'quick','changes':out,'missed':missed,'caught_only_by_another_propertys_check':notown},open('/verif/seeded/MATRIX.json','w'),indent=1)
+print('caught only by another property\'s check:',notown)
 print('missed:',missed)
 sys.exit(1 if missed else 0)
 PY
